@@ -24,6 +24,7 @@ RULE = ('Hypothesis draws a pool of 2..3 (T, v) pairs whose schema objects are s
         'what they yield alone; (5) the history run concurrently on 4 threads gives every thread the sequential results (sampled '
         'schedules); (6) with debug logging switched on every outcome is the same. Non-trivial = histories of >= 3 calls on one '
         'schema / interleavings that switch inside an element; distinct = distinct (pool, history).')
+RULE += (' ' + "Also: ANY in the pool types, a call with the caller's own tagMap=, module-level codec tables snapshotted, empty schemaless containers of two results compared for sharing, DEFAULT members of one result read and emptied before another result is looked at.")
 ASSUMPTIONS = ['thread schedules are sampled (sys.setswitchinterval(1e-6)), not controlled: this sub-check can expose a race, it '
                'cannot show absence']
 SHARDS = {'quick': (16, 90), 'thorough': (16, 2500)}
